@@ -492,8 +492,11 @@ def check(ctx):
             w = fsite(g.wfunc)
             ok_w = len(hdr) >= 2 and str(hdr[0].text).startswith('#') and str(hdr[-1].text).endswith('\n') and \
                 all(not i.pc for i in hdr)
+            def is_hash_test(c):
+                c = norm_cond(c)
+                return isinstance(c, tuple) and len(c) == 3 and c[0] == '==' and ('chr', '#') in (c[1], c[2])
             ok_r = len(R) >= 2 and R[0].k == 'peek' and R[1].k == 'ignore' and R[1].delim == '\n' and \
-                len(R[1].pc) == 1 and R[1].pc[0][0] == '==' and R[1].pc[0][2] == ('chr', '#')
+                len(R[1].pc) == 1 and is_hash_test(R[1].pc[0])
             if ok_w and ok_r:
                 ctx.holds('R8.header', w, 'a header line starting with # is written unconditionally and '
                           'skipped up to the newline iff present')
@@ -513,18 +516,20 @@ def check(ctx):
                 where = fsite(f)
                 peeks = [e for e, l in flat_effects(s.effects) if e['kind'] == 'in' and e['how'] == 'peek']
                 reads = [e for e, l in flat_effects(s.effects) if e['kind'] == 'in' and e['how'] != 'peek']
-                ok = len(peeks) == 1 and not reads and len(s.returns) == 2
-                for pc, v in s.returns:
-                    c = T.conj(pc)
-                    eof = isinstance(c, tuple) and c[0] == '==' and ('const', 'eof') in c
-                    neof = isinstance(c, tuple) and c[0] == 'not' and c[1][0] == '==' and ('const', 'eof') in c[1]
-                    if eof:
-                        ok = ok and isinstance(v, tuple) and v[0] == 'hcall' and v[1] == nm
-                    elif neof:
-                        ok = ok and isinstance(v, tuple) and v[0] == 'new' and 'chkpt_with_rng' in str(v[1]) and \
-                            v[-1] == sym('in')
-                    else:
-                        ok = False
+                ok = len(peeks) == 1 and not reads
+                # the value returned at end of file / otherwise, whatever the spelling of the test
+                eofc = ('const', 'eof')
+                pk = None
+                for t in T.subterms(s.ret):
+                    if isinstance(t, tuple) and len(t) == 3 and t[0] in ('==', '!=') and eofc in (t[1], t[2]):
+                        pk = t[2] if t[1] == eofc else t[1]
+                if pk is None:
+                    ok = False
+                else:
+                    v_eof, v_neof = by_case(s.ret, pk, eofc)
+                    ok = ok and isinstance(v_eof, tuple) and v_eof[0] == 'hcall' and v_eof[1] == nm
+                    ok = ok and isinstance(v_neof, tuple) and v_neof[0] == 'new' and 'chkpt_with_rng' in str(v_neof[1]) \
+                        and v_neof[-1] == sym(f.params[0].name)
                 if ok:
                     ctx.holds('R9.factory', where, 'the reading factory hands the untouched stream to the '
                               'deserialising constructor unless the stream is at end of file')
